@@ -11,13 +11,14 @@ def LI(xs): return {"t": "list", "v": list(xs)}
 def TU(xs): return {"t": "tuple", "v": list(xs)}
 def IP(s): return {"t": "ip", "v": [ord(c) for c in s]}
 def PA(s): return {"t": "path", "v": [ord(c) for c in s]}
+def CM(s): return {"t": "cmd", "v": [ord(c) for c in s]}
 
 
 def val(v):
     t = v["t"]
     if t in ("int", "bool"): return v["v"]
     if t == "none": return None
-    if t in ("str", "ip", "path"): return "".join(map(chr, v["v"]))
+    if t in ("str", "ip", "path", "cmd"): return "".join(map(chr, v["v"]))
     if t == "list": return [val(x) for x in v["v"]]
     if t == "tuple": return tuple(val(x) for x in v["v"])
     raise ValueError(t)
@@ -41,6 +42,7 @@ def GEN(q, it, elt, cond=None):
 def HELPER(f, fields, strs): return {"k": "helper", "f": f, "fields": list(fields), "strs": [[ord(c) for c in s] for s in strs]}
 def SUBSCR(a, i): return {"k": "sub", "a": a, "i": i}
 def IFEXP(c, a, b): return {"k": "ifexp", "c": c, "a": a, "b": b}
+def CTOR(f, arg): return {"k": "ctor", "f": f, "arg": [ord(c) for c in arg]}
 def HASFIELD(f): return {"k": "hasfield", "f": f}
 def TYPED(ty, op, b): return {"k": "typed", "form": "cmp", "ty": ty, "op": op, "b": b}
 def INTYPED(ty, b): return {"k": "typed", "form": "in", "ty": ty, "op": "In", "b": b}
@@ -75,6 +77,7 @@ def src(e):
         return f"{e['f']}(r, {e['fields']!r}, {strs!r})"
     if k == "sub": return f"{src(e['a'])}[{e['i']}]"
     if k == "ifexp": return f"({src(e['a'])} if {src(e['c'])} else {src(e['b'])})"
+    if k == "ctor": return f"{e['f']}({''.join(map(chr, e['arg']))!r})"
     if k == "hasfield": return f"has_field(r, {e['f']!r})"
     if k == "typed":
         if e["form"] == "cmp": return f"(Type.{e['ty']} {OPS[e['op']]} {src(e['b'])})"
@@ -105,21 +108,23 @@ def walk(e):
 
 # ---------- records ----------
 FIELDS = [("varint", "n"), ("string", "s"), ("string[]", "l"), ("string", "z"), ("boolean", "t"), ("net.ipaddress", "ip"), ("path", "p"), ("string", "w")]
+FIELD_C = ("command", "c")     # only the C08 grammar's in-memory records carry it (the JSON adapter does not claim command fields)
 RECS = [
-    {"n": I(1), "s": S("Ab"), "l": LI([S("a"), S("b")]), "z": NN, "t": B(True), "ip": IP("10.0.0.1"), "p": PA("/a/B"), "w": S("a")},
-    {"n": I(0), "s": S(""), "l": LI([]), "z": NN, "t": B(False), "ip": IP("10.0.0.2"), "p": PA("/a"), "w": S("zz")},
-    {"n": I(100), "s": S("a"), "l": LI([S("Ab")]), "z": NN, "t": B(True), "ip": NN, "p": NN, "w": S("b")},
+    {"n": I(1), "s": S("Ab"), "l": LI([S("a"), S("b")]), "z": NN, "t": B(True), "ip": IP("10.0.0.1"), "p": PA("/a/B"), "w": S("a"), "c": CM("ls -l")},
+    {"n": I(0), "s": S(""), "l": LI([]), "z": NN, "t": B(False), "ip": IP("10.0.0.2"), "p": PA("/a"), "w": S("zz"), "c": CM("x")},
+    {"n": I(100), "s": S("a"), "l": LI([S("Ab")]), "z": NN, "t": B(True), "ip": NN, "p": NN, "w": S("b"), "c": NN},
     # a record of ANOTHER descriptor with the same type name that HAS the field `m` the others lack
-    {"n": I(7), "s": S("a"), "l": LI([S("a")]), "z": NN, "t": B(False), "ip": NN, "p": NN, "w": S("a"), "m": S("a")},
+    {"n": I(7), "s": S("a"), "l": LI([S("a")]), "z": NN, "t": B(False), "ip": NN, "p": NN, "w": S("a"), "c": CM("ls -l"), "m": S("a")},
 ]
 FIELDS_M = FIELDS + [("string", "m")]
 
 
-def envs():
+def envs(with_c=False):
     """the records as environments for spec/Selector.tla (with the field-type table the typed matchers need)"""
     out = []
     for r in RECS:
-        fl = FIELDS_M if "m" in r else FIELDS
+        fl = (FIELDS_M if "m" in r else FIELDS) + ([FIELD_C] if with_c else [])
+        r = {k: v for k, v in r.items() if with_c or k != "c"}
         out.append(dict(r, **{"$types": {"t": "meta", "v": {n: t for t, n in fl}}, "$order": {"t": "meta", "v": [n for t, n in fl]}}))
     return out
 MISSING = ["m", "m2"]   # field names no record has
@@ -147,12 +152,13 @@ def py_eval(code, recd):
         return {"k": "exc", "v": False}
 
 
-def real_records():
+def real_records(with_c=False):
     from flow.record import RecordDescriptor
 
-    D = RecordDescriptor("t/sel", FIELDS)
-    DM = RecordDescriptor("t/sel", FIELDS_M)
-    return [(DM if "m" in r else D)(**{k: val(v) for k, v in r.items()}, _generated=None) for r in RECS], D
+    extra = [FIELD_C] if with_c else []
+    D = RecordDescriptor("t/sel", FIELDS + extra)
+    DM = RecordDescriptor("t/sel", FIELDS_M + extra)
+    return [(DM if "m" in r else D)(**{k: val(v) for k, v in r.items() if with_c or k != "c"}, _generated=None) for r in RECS], D
 
 
 def engine_eval(cls, source, recs, cache=None):
@@ -178,7 +184,7 @@ def make_case(e, frecs, plain):
 
     s = src(e)
     miss = has_missing(e)
-    if miss or any(x["k"] in ("helper", "hasfield", "typed") or (x["k"] == "field" and x["f"] in ("ip", "p")) for x in walk(e)):
+    if miss or any(x["k"] in ("helper", "hasfield", "typed", "ctor") or (x["k"] == "field" and x["f"] in ("ip", "p")) for x in walk(e)):
         py = [{"k": "skip", "v": False} for _ in plain]   # not cross-validated by eval (see _Missing)
     else:
         code = compile(s, "<e>", "eval")
@@ -192,10 +198,11 @@ def c08_exprs():
     """operator x position of the missing operand x kind of the other operand x boolean context, + helpers"""
     others = {
         "int": C(I(1)), "str": C(S("a")), "none": C(NN), "bool": C(B(True)), "field_int": F("n"), "field_str": F("s"), "field_list": F("l"),
-        "field_none": F("z"), "field_bool": F("t"), "list": LST(C(I(1)), C(S("a"))), "tuple": TUP(C(I(1)), C(S("a"))), "missing": F("m2"), "emptystr": C(S("")),
+        "field_none": F("z"), "field_bool": F("t"), "field_ip": F("ip"), "field_path": F("p"), "field_command": F("c"), "list": LST(C(I(1)), C(S("a"))), "tuple": TUP(C(I(1)), C(S("a"))), "missing": F("m2"), "emptystr": C(S("")),
         "list_with_missing": LST(F("m2"), C(I(1))), "tuple_with_missing": TUP(F("m2"), F("n")),
+        "subnet4": CTOR("net.ipv4.Subnet", "10.0.0.0/8"), "ipnetwork": CTOR("net.ipnetwork", "10.0.0.0/8"),
     }
-    containers = {"str", "field_str", "field_list", "list", "tuple", "missing", "emptystr", "list_with_missing", "tuple_with_missing"}
+    containers = {"str", "field_str", "field_list", "list", "tuple", "missing", "emptystr", "list_with_missing", "tuple_with_missing", "subnet4", "ipnetwork"}
     out = []
     for op in CMPOPS:
         for pos in ("left", "right"):
